@@ -82,6 +82,8 @@ def model_request(case, impl):
     ops = []
     for i, op in enumerate(case["ops"]):
         m = {"k": op["k"]}
+        if op["k"] in ("setdiv", "setside"):
+            break  # leaf edits are not modelled: the model follows the history up to here, the oracle judges all of it
         if op["k"] != "write":
             if i >= len(impl["steps"]):
                 break  # the implementation stopped before this step
@@ -178,6 +180,8 @@ def compare(case, impl, den, model):
         return "U-geometry-parse (parseInputNode vs HalfSpace.parse_input_node)" if case["origin"] == "parsed" else "U-geometry-ops", {
             "impl": impl["init_str"], "model": model["init"]}
     for i, op in enumerate(case["ops"]):
+        if op["k"] in ("setdiv", "setside"):
+            break  # not modelled from here on (leaf edit)
         if i >= len(impl["steps"]):
             return "U-geometry (implementation raised)", {"impl": impl.get("raised"), "step": i}
         if i >= len(model["steps"]):
@@ -348,7 +352,7 @@ def nontrivial(case):
     if nt(case["init"]):
         return True
     kinds = [op["k"] for op in case["ops"] if op["k"] != "write"]
-    if "setop" in kinds:
+    if "setop" in kinds or "setdiv" in kinds or "setside" in kinds:
         return True
     return len(kinds) >= 1 and (len(set(k.replace("r", "").replace("i", "") for k in kinds)) > 1 or any(nt(op["x"]) for op in case["ops"] if "x" in op))
 
